@@ -141,6 +141,13 @@ func (w *wk) runCase(s Site, k Case, half bool) {
 		b.Spec.DelayMs = 25
 		b.Name += "/half-closed-client"
 	}
+	if b.Spec.Accel != "" {
+		if s.has(dInternal) {
+			w.count("internal_redirect_cases", 1)
+		} else {
+			b.Spec.Accel = "" // nothing follows the redirect in this site
+		}
+	}
 	method := methods[k.M]
 	path := pathClasses[k.Path]
 	w.journalCase(fmt.Sprintf("site=%s pages=%v host=%s behaviour=%s %s %s ae=%v", s.Name(), s.Pages, s.host(), b.Name, method, path, k.AE))
